@@ -29,12 +29,14 @@ CHECKS = {
     "C13": ("single", "exploration", "1-4 watched filters, timing configurations incl. min=max windows and forced uniform extremes, rogue offers / stop-offers / short-TTL offers / reboots placed at and around every round instant; each round's entry set, content, destination and timing are predicted by an interval store model", "DESIGN.md §6 C13"),
     "C14": ("single", "exploration", "random subscribe / stop-subscribe / start / stop sequences over 4 eventgroups x 3 servers with calls placed in the same instant, at and around the refresh ticks, in I/O and timer phase; a model server per destination applies the decoded entries in transmission order and must mirror the requested set at every idle point", "DESIGN.md §6 C14"),
     "C15": ("single", "exploration", "every queue_send call is recorded on the announcer instance and matched, per destination and in order, with the decoded entries leaving the transport; bursts up to 40 entries and requests placed exactly at collector deadlines", "DESIGN.md §6 C15"),
+    "C16": ("svc", "exploration", "requests arrive as datagrams (single, coalesced, duplicated, with undecodable tails, unicast and multicast) at a SimpleService that concurrently serves subscriptions and 50 ms cyclic notifications; every reply at the transport is compared with the decision chain of the property text. The schedule adds little here - each message is handled synchronously - which DESIGN.md says plainly", "DESIGN.md §6 C16"),
+    "C17": ("svc", "exploration", "a SimpleService with an explicit and a cyclic eventgroup behind a real SD stack; rogue clients subscribe / stop / restart / let TTLs expire while values change and explicit rounds are requested inside the seeded resolver latency of pending rounds; datagrams are matched (bipartite) against initial / explicit / cyclic expectations, payloads against the value history, session ids per destination", "DESIGN.md §6 C17"),
 }
 
 ENGINES = {
     "single": ("sim/single.py", "one real SD stack (optionally + SimpleService) under SimLoop with scripted rogue peers"),
     "pair": ("sim/pair.py", "two or three real SD stacks on the simulated network with loss/dup/delay/partition/crash/restart/stall/drift"),
-    "service": ("sim/svc.py", "one SimpleService endpoint + SD stack with rogue clients and a slow resolver"),
+    "svc": ("sim/svc.py", "one SimpleService endpoint + SD stack with rogue clients and a slow resolver"),
     "stream": ("sim/stream.py", "asyncio.StreamReader fed by a simulated peer task (chunking, EOF, reset)"),
 }
 
